@@ -122,6 +122,40 @@ fn check_case(c: &SeqCase, obs: &mut Obs) -> Verdict {
             panic!("oracle sanity: covered {} > lis {} for {:?}", covered, lis, c);
         }
     }
+    // old and new are ONE buffer diffed over two different index ranges (windows of a sequence)
+    if c.mode % 3 == 0 && !c.old.is_empty() {
+        let buf = &c.old;
+        let clamp = |x: usize| x.min(buf.len());
+        let nr2 = (clamp(c.nr.0).min(clamp(c.nr.1)), clamp(c.nr.1));
+        let (os2, ns2) = (&buf[c.or.0..c.or.1], &buf[nr2.0..nr2.1]);
+        let u2 = unique_common(os2, ns2);
+        let lis2 = lis_len(&u2.iter().map(|p| p.1).collect::<Vec<_>>());
+        let ev2 = guard(|| {
+            let mut r = Recorder::new();
+            similar::algorithms::patience::diff(&mut r, &buf[..], c.old_r(), &buf[..], nr2.0..nr2.1).unwrap();
+            r.events
+        });
+        let ev2 = match ev2 {
+            Ok(e) => e,
+            Err(p) => return Verdict::Fail(format!("patience over two windows of one buffer: {}", p)),
+        };
+        let mut set = std::collections::HashSet::new();
+        for e in &ev2 {
+            if let Ev::Equal(o, n, l) = *e {
+                for t in 0..l {
+                    set.insert((o + t - c.or.0, n + t - nr2.0));
+                }
+            }
+        }
+        let covered2 = u2.iter().filter(|p| set.contains(p)).count();
+        if covered2 < lis2 {
+            return Verdict::Fail(format!(
+                "patience over two windows {:?} and {:?} of ONE buffer {:?}: {} of the {} unique common items are reported Equal, but {} of them appear in the same relative order (stream {:?})",
+                c.or, nr2, buf, covered2, u2.len(), lis2, ev2
+            ));
+        }
+        obs.class_if(c.or != nr2, "old and new are two windows of one buffer");
+    }
     let repeats = os.len() + ns.len() > 2 * u.len();
     obs.nontrivial = lis > 0 && lis < u.len() && repeats;
     obs.class_if(lis == u.len() && lis > 0, "all unique common items in order");
@@ -159,7 +193,7 @@ impl Prop for C15 {
     type Case = SeqCase;
     const ID: &'static str = "C15";
     fn rule() -> String {
-        "cases = (old, new, ranges, capture entry point) diffed with Patience, no deadline, raw and captured; enumeration of all pairs over a 4-letter alphabet plus proptest mixture (unique markers at independent positions on both sides, would-be anchors duplicated on one side, permutations, repeats, block moves, sub-ranges). Oracle: U = items occurring exactly once in each range; lis = longest subsequence of U in the same relative order on both sides (patience sorting); the number of U items reported Equal with their unique counterpart must be >= lis, and a U item must never be matched to another position. Non-trivial = 0 < lis < |U| and repeated items present; distinct = distinct serialized case.".into()
+        "cases = (old, new, ranges, capture entry point) diffed with Patience, no deadline, raw and captured; enumeration of all pairs over a 4-letter alphabet plus proptest mixture (unique markers at independent positions on both sides, would-be anchors duplicated on one side, permutations, repeats, block moves, sub-ranges). Oracle: U = items occurring exactly once in each range; lis = longest subsequence of U in the same relative order on both sides (patience sorting); the number of U items reported Equal with their unique counterpart must be >= lis, and a U item must never be matched to another position. For a third of the cases the same oracle is also applied to patience::diff over TWO WINDOWS OF ONE BUFFER (old and new are the same object, different ranges). Non-trivial = 0 < lis < |U| and repeated items present; distinct = distinct serialized case.".into()
     }
     fn assumptions() -> Vec<String> {
         vec!["covered > lis is impossible for a valid script and treated as a harness bug (exit 2)".into()]
